@@ -35,7 +35,7 @@ CHECKS = {
          "All histories (depth 5 quick, 8 thorough) of add / remove-subset / remove-bundle-spanning-both-entities / fire / despawn / manual run over one WorldReactor and two EntityWorldReactors with two triggers each and two entities, plus a second WorldReactor registered with starting triggers before the plugin is added and a plain reactor added with App::add_reactor, a third with type-wide component triggers and a fourth with any_entity_event of the event type the first takes as a broadcast; a reference model predicts the exact multiset of runs, the local data each run exposes (as modified by earlier runs), presence of the local-data component on every entity after every step, and that the three reactor systems are never despawned or duplicated.",
          "Bounded depth; registration multiplicity per trigger capped at 2; states are merged only if the reference-model state AND the implementation's registration tables agree.", "DESIGN.md 5 C16"),
  "C17": ("cobweb-mc", "model_checking", "explicit-state BFS over call sequences of the real crate against a reference map",
-         "All sequences (depth 3 quick, 5 thorough) of calls through syscall / named_syscall / spawned_syscall over 13 targets (ordinary systems f and g - g takes its Commands inside a ParamSet -, an exclusive system x, a self-despawning spawned system, syscall_once; two names; three spawned ids; a missing id), each optionally with a chain of nested calls (2 levels quick, 3 thorough) made from the commands the enclosing call queues; a reference map key -> (counter, change-detection cursor) predicts every run, its Local counter, the number of Added<Marker> entities it sees, input, output, command application before return, and Err-without-run for missing / running spawned systems.",
+         "All sequences (depth 3 quick, 5 thorough) of calls through syscall / named_syscall / spawned_syscall over 15 targets (ordinary systems f and g - g takes its Commands inside a ParamSet -, a unit-output system h called directly and through Commands::syscall, an exclusive system x, a self-despawning spawned system, syscall_once; two names; three spawned ids; a missing id), each optionally with a chain of nested calls (2 levels quick, 3 thorough) made from the commands the enclosing call queues; a reference map key -> (counter, change-detection cursor) predicts every run, its Local counter, the number of Added<Marker> entities it sees, input, output, command application before return, and Err-without-run for missing / running spawned systems.",
          "Same-key recursion modelled as documented (inner state does not persist); keys that differ only by an interchangeable label (g after f, name n1 after n0, second spawned id after the first) are pruned by restricted growth.", "DESIGN.md 5 C17, 11.2"),
  "C02": ("cobweb-mc", "model_checking", LP,
          "Every program with at most N chosen operations over {Run, SysEvent, DespawnSys}x3 actors + Broadcast (preset listeners; plain, erring and exclusive systems; one or two trees) is executed on the real crate; the spec monitor requires for every command the runner reaches exactly one of run / postponed-while-busy / dropped-because-dead, exactly one run per obligation, and nothing pending when the flush returns.",
@@ -60,7 +60,7 @@ CHECKS = {
          "Bounded (N<=4 quick, N<=6 thorough); exclusive / erring senders and targets in the deliver2-excl-plain / deliver2-err-excl series; tops-polled sends from the top level while removals wait to be polled; the data rules ('each with its own data') are reported here too.", "DESIGN.md 5 C12"),
  "C13": ("cobweb-mc", "model_checking", LP,
          "Runner-core programs over three registrations of the same closure type (plus exclusive / erring variants): at every run Local counter == captured counter == number of earlier runs of that registration.",
-         "Bounded (N<=4 quick, N<=6 thorough); a `frames` series puts App::update (which clears the world's change trackers) between the trees of exclusive systems; an `app-reactors` series registers three reactors of one closure type through App::add_reactor; `big-tree` runs one tree of 4200 commands (fixed script) and then the same systems from the top level.", "DESIGN.md 5 C13"),
+         "Bounded (N<=4 quick, N<=6 thorough); a `frames` series puts App::update (which clears the world's change trackers) between the trees of exclusive systems; an `app-reactors` series registers three reactors of one closure type through App::add_reactor; `tag-sys` moves a system's own entity to another archetype during its run; `big-tree` runs one tree of 4200 commands (fixed script) and then the same systems from the top level.", "DESIGN.md 5 C13"),
 }
 
 def main():
